@@ -128,3 +128,30 @@ Example c09_nonvacuous_err :
   let o := run_case [ex_module; map (fun b => (b, 1)) [70;79;79]] 0 [5] in
   (o_kind o, o_code o, o_line o) = (1, 1, 1).
 Proof. vm_compute. reflexivity. Qed.
+
+(* Known finding F-C09a (recorded, not fixed): when the over-long line is the header of a group, dropping it
+   orphans its sub-lines.  Here every line but the over-long FUNC header is a valid record, the header is
+   dropped (o_dropped = 1) exactly as c09_long_line_dropped says, and the parse still fails at the line
+   record that follows it ("failed to parse file", line 3): "dropped" is not "as if the group were absent".
+   The theorems above state what the driver does (replay of the decisions); they do not claim Ok here. *)
+Example c09_known_overlong_header_witness :
+  let o := run_case [ex_module;
+                     map (fun b => (b, 1)) [73;78;70;79;32;120];                               (* INFO x *)
+                     map (fun b => (b, 1)) [70;85;78;67;32;49;48;32;52;32;48;32] ++ [(78, 163840)];   (* FUNC 10 4 0 NNN... *)
+                     map (fun b => (b, 1)) [49;48;32;52;32;49;32;49];                          (* 10 4 1 1 *)
+                     ex_file] 0 [] in
+  (o_kind o, o_code o, o_line o, o_dropped o) = (1, 1, 3, 1).
+Proof. vm_compute. reflexivity. Qed.
+Print Assumptions c09_known_overlong_header_witness.
+(* ... and when a FUNC is open in front of it, the orphaned line record is attributed to that FUNC *)
+Example c09_known_overlong_header_misattributed :
+  let o := run_case [ex_module;
+                     map (fun b => (b, 1)) [70;85;78;67;32;49;48;32;52;32;48;32;102];           (* FUNC 10 4 0 f *)
+                     map (fun b => (b, 1)) [70;85;78;67;32;50;48;32;52;32;48;32] ++ [(78, 163840)];   (* FUNC 20 4 0 NNN... *)
+                     map (fun b => (b, 1)) [50;48;32;52;32;49;32;49];                          (* 20 4 1 1 *)
+                     ex_file] 0 [] in
+  (o_kind o, o_dropped o,
+   match o_table o with Some t => map (fun e => (fst e, map fst (sf_lines (snd e)))) (t_funcs t) | None => [] end)
+  = (0, 1, [((16, 19), [(32, 35)])]).
+Proof. vm_compute. reflexivity. Qed.
+Print Assumptions c09_known_overlong_header_misattributed.
